@@ -2799,6 +2799,7 @@ void SoPlexBase<R>::clearLPReal()
    _realLP->clear();
    _realLP->changeSense(intParam(SoPlexBase<R>::OBJSENSE) == SoPlexBase<R>::OBJSENSE_MAXIMIZE ?
                         SPxLPBase<R>::MAXIMIZE : SPxLPBase<R>::MINIMIZE);
+   _isRealLPScaled = false;
    _hasBasis = false;
    _rationalLUSolver.clear();
 
@@ -3742,6 +3743,7 @@ void SoPlexBase<R>::clearLPRational()
       _realLP->clear();
       _realLP->changeSense(intParam(SoPlexBase<R>::OBJSENSE) == SoPlexBase<R>::OBJSENSE_MAXIMIZE ?
                            SPxLPBase<R>::MAXIMIZE : SPxLPBase<R>::MINIMIZE);
+      _isRealLPScaled = false;
       _hasBasis = false;
    }
 
